@@ -26,7 +26,7 @@ VARIABLES l, ph, f
 tvars == <<l, ph, f, g, phase, res>>
 Model == UNCHANGED <<g, phase, res>>
 
-F0 == [len |-> 0, wf |-> FALSE, badlex |-> FALSE, tcap |-> 0, full |-> FALSE, tn |-> 0, lexerrs |-> 0,
+F0 == [len |-> 0, wf |-> FALSE, badlex |-> FALSE, light |-> FALSE, tcap |-> 0, full |-> FALSE, tn |-> 0, lexerrs |-> 0,
        ncap |-> 0, declcap |-> 0, nerrcap |-> 0, decls |-> 0, nn |-> 0, nerrs |-> 0, hdr |-> FALSE, oneerr |-> FALSE]
 
 TInit == l = 1 /\ ph = "idle" /\ f = F0 /\ g = G0 /\ phase = "trace" /\ res = NoRes
@@ -35,7 +35,9 @@ Ev(e) == l <= Len(Rec) /\ Rec[l].ev = e
 Step == l' = l + 1 /\ Model
 
 TInput == /\ Ev("input") /\ ph = "idle"
-          /\ f' = [F0 EXCEPT !.len = Rec[l].len, !.wf = Rec[l].wf, !.badlex = Rec[l].badlex]
+          /\ f' = [F0 EXCEPT !.len = Rec[l].len, !.wf = Rec[l].wf, !.badlex = Rec[l].badlex,
+                              \* light: a long run recorded with the buffer events only (no decl / cursor / zone events)
+                              !.light = Rec[l].light]
           /\ ph' = "start" /\ Step
 
 \* Tokens::empty -- also called (with source_len 0) by empty_with_one_error
@@ -96,7 +98,7 @@ TNodeLen == /\ Ev("nodelen") /\ ph = "parsing"
             /\ Rec[l].cap = f.ncap
             /\ Rec[l].n = Rec[l].pushes /\ Rec[l].n <= Rec[l].cap                           \* R: SetLenOK
             /\ Rec[l].n >= Pad
-            /\ Rec[l].decls = f.decls /\ Rec[l].errs <= f.nerrcap
+            /\ (~f.light => Rec[l].decls = f.decls) /\ Rec[l].decls <= f.declcap /\ Rec[l].errs <= f.nerrcap
             /\ f' = [f EXCEPT !.nn = Rec[l].n, !.nerrs = Rec[l].errs] /\ ph' = "parsed" /\ Step
 
 \* build_header_nodes
